@@ -500,6 +500,8 @@ func (d *driver) finish(t0 time.Time) int {
 		hashes := map[uint64]struct{}{}
 		nres := 0
 		exh := false
+		digests := map[string]string{}
+		digestFrom := map[string]int{}
 		for sh := 0; sh < d.nshard; sh++ {
 			b, err := os.ReadFile(fmt.Sprintf("%s/w%d.s%d.json", d.dir, sh, si))
 			if err != nil {
@@ -514,6 +516,16 @@ func (d *driver) finish(t0 time.Time) int {
 				continue
 			}
 			nres++
+			for k, v := range r.Digests {
+				if old, ok := digests[k]; ok && old != v {
+					viols = append(viols, Violation{Sub: s.Name, Sig: "result-depends-on-process-history", Detail: map[string]interface{}{"key": k,
+						"worker_" + fmt.Sprint(digestFrom[k]): old, "worker_" + fmt.Sprint(sh): v,
+						"meaning": "the same operations on the same inputs gave different results in two worker processes that had executed different operations before"}})
+					ss.Violations++
+				} else if !ok {
+					digests[k], digestFrom[k] = v, sh
+				}
+			}
 			ss.Evals += r.Evals
 			ss.Distinct += r.BulkNT
 			ss.Violations += r.NViol
@@ -544,6 +556,9 @@ func (d *driver) finish(t0 time.Time) int {
 			}
 		}
 		ss.Distinct += int64(len(hashes))
+		if len(digests) > 0 {
+			ss.Counts["cross_process_digests_compared"] = int64(len(digests))
+		}
 		ss.Exhaustive = exh && ss.Complete
 		if !ss.Exhaustive {
 			allExh = false
